@@ -13,9 +13,9 @@ PROPERTY = "C09"
 DEFAULT_OPTS = {"validate": 2, "timeout_ms": 15000, "budget_s": 300, "max_paths": 40}
 
 META = {
-    "bounds": "one polynomial map g(y; a, b, c) = a*y^2 + b*y - c*w(y) with symbolic leaves a, b, c supplied in 9 representations "
+    "bounds": "one polynomial map g(y; a, b, c) = a*y^2 + b*y - c*w(y) with symbolic leaves a, b, c supplied in 10 representations "
               "(pure function, nn.Module, nested nn.Module, EditableModule with derived / aliased / list- and dict-held tensors, "
-              "nn.Module inside EditableModule, single and multiple siblings) x functionals {rootfinder (caller-supplied forward), "
+              "nn.Module inside EditableModule, single siblings, siblings of 2 and of 3 methods of different objects) x functionals {rootfinder (caller-supplied forward), "
               "solve_ivp (euler, 2 steps), quad (n=2), jac products, mcquad (mhcustom, thorough)} x requires_grad patterns {all, first "
               "frozen, last frozen}; values, first- and second-order gradients w.r.t. the underlying leaves are proved identical to the "
               "pure-function representation",
@@ -119,6 +119,42 @@ def build(kind, a, b, c):
         def sib2(y):
             return m1.forward(y) + m2.forward(y)
         return sib2, (), [m1.a, m1.b, c]
+    if kind == "multi_sibling3":
+        # three methods of three objects of different kinds (a: EditableModule, b: nn.Module, c: EditableModule with 2 tensors)
+        class OnlyA(xitorch.EditableModule):
+            def __init__(self, a_):
+                self.a = a_
+
+            def forward(self, y):
+                return self.a * y * y
+
+            def getparamnames(self, methodname, prefix=""):
+                return [prefix + "a"]
+
+        class OnlyB(torch.nn.Module):
+            def __init__(self, b_):
+                super().__init__()
+                self.b = torch.nn.Parameter(b_, requires_grad=b_.requires_grad)
+
+            def forward(self, y):
+                return self.b * y
+
+        class OnlyC(xitorch.EditableModule):
+            def __init__(self, c_):
+                self.c1 = c_ * 0.5
+                self.c2 = c_ * 2
+
+            def forward(self, y):
+                return self.c1 + self.c2 * 0.25
+
+            def getparamnames(self, methodname, prefix=""):
+                return [prefix + "c1", prefix + "c2"]
+        ma, mb, mc = OnlyA(a), OnlyB(b), OnlyC(c)
+
+        @make_sibling(ma.forward, mb.forward, mc.forward)
+        def sib3(y):
+            return ma.forward(y) + mb.forward(y) - mc.forward(y)
+        return sib3, (), [a, mb.b, c]
     if kind == "mixed":
         # a held by a module, b and c explicit
         class Half(torch.nn.Module):
@@ -212,7 +248,7 @@ def configs(tier):
     def add(id_, scenario, opts=None, **params):
         cfgs.append({"id": id_, "scenario": scenario, "params": params, "opts": opts or {}})
 
-    kinds = ["nn", "nn_nested", "editable", "editable_nn", "sibling", "multi_sibling", "mixed"]
+    kinds = ["nn", "nn_nested", "editable", "editable_nn", "sibling", "multi_sibling", "multi_sibling3", "mixed"]
     functionals = ["rootfinder", "solve_ivp", "quad", "jac"]
     for fn in functionals:
         for kind in kinds:
